@@ -944,9 +944,35 @@ pub fn check(cfg: &Cfg) -> Result<i32, Harness> {
                 .map(|x| x.1)
                 .collect()
         };
-        for (k, (stratum, f)) in chosen.into_iter().enumerate() {
+        let n_single = chosen.len();
+        // two faults per run: a failure or a benign disturbance first, then a kill further on.
+        // Any kill point is legitimate (the invariants are state-based), so it does not matter
+        // that the first fault shifts the later operations.
+        let mut pairs: Vec<(String, Vec<Fault>)> = Vec::new();
+        {
+            let mut rng = Rng::for_run(cfg.seed ^ 0x5A5A, ID, i as u64);
+            let firsts: Vec<&(String, Vec<Fault>)> = chosen.iter().filter(|(s, _)| s != "kill").collect();
+            let n_pairs = if cfg.tier == Tier::Thorough { 40 } else { 4 };
+            if !firsts.is_empty() && p.base.counted > 2 {
+                for _ in 0..n_pairs {
+                    let (_, f1) = *rng.pick(&firsts);
+                    let at1 = match f1[0].at {
+                        At::Seq(q) => q,
+                        _ => 0,
+                    };
+                    let span = (p.base.counted + 3).saturating_sub(at1 + 1).max(1);
+                    let j = at1 + 1 + rng.below(span as u64) as u32;
+                    let mut fs = f1.clone();
+                    fs.push(Fault { at: At::Seq(j), kind: FaultKind::KillBefore, sig: None });
+                    pairs.push(("kill".to_string(), fs));
+                }
+            }
+        }
+        tally.add_n("fault_pairs", pairs.len() as u64);
+        for (k, (stratum, f)) in chosen.into_iter().chain(pairs).enumerate() {
             tasks.push((i, stratum, f, i as u64 * 100_000 + 1 + k as u64));
         }
+        let _ = n_single;
         if samples.len() < 3 {
             samples.push(json!({
                 "argv": p.case.argv(true, None),
@@ -1088,7 +1114,7 @@ pub fn check(cfg: &Cfg) -> Result<i32, Harness> {
         coverage: json!({
             "evaluations": evaluations,
             "distinct_nontrivial": triples.len(),
-            "rule": "worlds drawn from the seed (1-3 input files, paths/modes/contents/filters/options varied, decoys); per world the fault-free -i trace defines the space {KILL_BEFORE at every counted op, KILL_AFTER the last, TORN at 3 cut points of every file write, FAIL(errno) for every errno of the op's menu, EINTR/SHORT on every read/write}; thorough sweeps that space completely per world, quick samples it with weights favouring open/stat/rename/chmod. distinct = distinct (fault-free trace shape, fault kind, faulted syscall) triples among faults that fired between the first open of an input and the last chmod; trivial = fault never fired or fired outside that window.",
+            "rule": "worlds drawn from the seed (1-3 input files, paths/modes/contents/filters/options varied, decoys); per world the fault-free -i trace defines the space {KILL_BEFORE at every counted op, KILL_AFTER the last, TORN at 3 cut points of every file write, FAIL(errno) for every errno of the op's menu, EINTR/SHORT on every read/write}; thorough sweeps that space completely per world, quick samples it with weights favouring open/stat/rename/chmod; on top, runs with two faults (a failure or benign disturbance, then a kill at a later operation: 4 per world quick, 40 thorough). distinct = distinct (fault-free trace shape, fault kind, faulted syscall) triples among faults that fired between the first open of an input and the last chmod; trivial = fault never fired or fired outside that window.",
             "exhaustive": false,
             "fault_space_swept_completely_per_world": exhaustive_per_world,
             "worlds": prepped.len(),
@@ -1097,6 +1123,7 @@ pub fn check(cfg: &Cfg) -> Result<i32, Harness> {
             "reach_probes": tally.0.iter().filter(|(k, _)| k.starts_with("reach:")).map(|(k, v)| (k[6..].to_string(), *v)).collect::<BTreeMap<_, _>>(),
             "reference_runs": tally.get("reference_runs"),
             "fault_space_total": tally.get("fault_space_total"),
+            "two_fault_runs": tally.get("fault_pairs"),
             "faults_that_did_not_fire": tally.get("fault_did_not_fire"),
             "real_vs_stub": {"real": ["jaq binary built from /repo working tree (dev profile, shipped features)", "libc", "kernel file system in a private directory"], "simulated": ["fault decisions at the system-call boundary", "process kill", "mount boundary (EXDEV across directories)", "getrandom", "environment"]},
             "samples": samples,
